@@ -20,7 +20,7 @@ RULE = ("cadzow: full rectangular site grids 1-4 columns x 4-40 rows in shuffled
         "Non-trivial: grid with >= 2 columns / >= 2 spikes per bin somewhere / >= 2 labels with fold > 1; distinct = distinct (function, shape, "
         "parameters) signature")
 ASSUMPTIONS = ["spike times are sorted (as produced by spike sorters)", "floating point tolerances: identities 1e-10 relative, polynomial reproduction rtol 1e-6"]
-REQUIRED = {"smooth_call_histories": 100, "smooth_integer_constants": 20, "cadzow_np1_identity": 6, "cadzow_identity": 10, "cadzow_planewave": 10, "svd_identity": 10, "svd_offset_identity": 10, "smooth_constants": 30, "savgol_polynomials": 30, "savgol_nan": 10,
+REQUIRED = {"venn_crowded_bins": 20, "smooth_call_histories": 100, "smooth_integer_constants": 20, "cadzow_np1_identity": 6, "cadzow_identity": 10, "cadzow_planewave": 10, "svd_identity": 10, "svd_offset_identity": 10, "smooth_constants": 30, "savgol_polynomials": 30, "savgol_nan": 10,
             "venn_conservation": 20, "stack_checked": 10}
 CASE_TIMEOUT = 200.0
 
@@ -363,6 +363,28 @@ def run_case(case):
                                   counter="venn_conservation")
                 except Exception as e:
                     res.exception("venn:exception:bin-parameters", e, label)
+            # round 22: a busy stretch seen through coarse bins - hundreds of spikes of ONE sorter in one (time, channel) bin (population bursts, a noisy
+            # sorter, a summary at 50 ms x whole probe): every spike still belongs to exactly one region
+            if _ % 2 == 0:
+                sb3 = int(rng.choice([600, 1500, 3000]))
+                t0 = int(rng.integers(0, max(1, dur - 4 * sb3)))
+                s3, c3 = [], []
+                for j in range(k):
+                    nbusy = int(rng.integers(130, 700))
+                    sj = np.sort(np.r_[samples[j], t0 + rng.integers(0, 2 * sb3, nbusy)]).astype(np.int64)
+                    s3.append(np.clip(sj, 0, dur - 1))
+                    c3.append(rng.integers(0, 384, sj.size).astype(np.int64))
+                for chunk in (None, 30000, 12 * sb3):
+                    label = f"venn{k} busy stretch: n={[len(s) for s in s3]} samples_binsize={sb3} channels_binsize=384 chunk_size={chunk}"
+                    try:
+                        with contextlib.redirect_stdout(io.StringIO()), contextlib.redirect_stderr(io.StringIO()):
+                            d = fn(tuple(s3), tuple(c3), samples_binsize=sb3, channels_binsize=384, chunk_size=chunk)
+                        for j in range(k):
+                            tot = sum(int(v) for nm, v in d.items() if nm[j] == "1")
+                            res.check(tot == len(s3[j]) and all(int(v) >= 0 for v in d.values()), "venn:conservation:crowded-bins",
+                                      f"{label}: sorter {j + 1}: regions containing it sum to {tot}, it has {len(s3[j])} spikes", counter="venn_crowded_bins")
+                    except Exception as e:
+                        res.exception("venn:exception:crowded-bins", e, label)
             # bin-aligned chunk sizes (multiples of the 12-sample bin) give the same dictionary
             aligned = [c for c in results if c is not None and c % 12 == 0] + ([None] if None in results else [])
             for a in aligned[1:]:
